@@ -97,32 +97,26 @@ def check(ctx):
     idx_checks = []
     for b in sorted(R.reachable):
         info = mir.switch_on(R, b)
-        if info and info["kind"] == "bin" and info["bin"]["op"] in ("Eq", "Ne"):
+        if info and info["kind"] == "bin" and info["bin"]["op"] in ("Eq", "Ne", "Lt", "Le", "Gt", "Ge"):
             l, r = info["bin"]["l"], info["bin"]["r"]
-            cv = lib.const_val(r) if lib.const_val(r) is not None else lib.const_val(l)
-            other = l if lib.const_val(r) is not None else r
+            const_right = lib.const_val(r) is not None
+            cv = lib.const_val(r) if const_right else lib.const_val(l)
+            other = l if const_right else r
             os_ = origins(R, other)
-            from_counter = False
-            for o in os_:
-                if o[0] == "call":
-                    fr = op_fn(R.blocks[o[1]]["term"]["func"])
-                    if fr and any(A.TABLE["counter_type"] in a for a in fr.get("args", [])):
-                        from_counter = True
-            if from_counter:
-                # target taken when counter == const
-                tg = info["targets"]
-                if info["bin"]["op"] == "Eq":
-                    eq_t = info["otherwise"] if 0 in tg else None
-                    ne_t = tg.get(0)
-                else:
-                    eq_t = tg.get(0)
-                    ne_t = info["otherwise"]
-                idx_checks.append((b, cv, eq_t, ne_t, other))
-    ctx.floor("C02.a", len(idx_checks), 2, "tree-counter comparisons in runner (postpone guard + root test)")
-    for b, cv, eq_t, ne_t, other in idx_checks:
-        ctx.check(cv == 0, "C02.a", "%s:counter-compared-with-zero" % fk, R.loc(b),
-                  "counter compared with constant 0", "tree counter compared with constant %r, must be 0" % cv)
-        # the compared value is the entry value: its defining call block dominates the increment
+            from_counter = any(is_counter_call(R, o) for o in os_)
+            if not from_counter or cv is None:
+                continue
+            tg = info["targets"]
+            true_t = info["otherwise"] if 0 in tg else tg.get(1)
+            false_t = tg.get(0) if 0 in tg else info["otherwise"]
+            zt = zero_test(info["bin"]["op"], cv, const_right)
+            if zt is None:
+                ctx.fail("C02.a", "%s:counter-test-not-exact-zero-test" % fk, R.loc(b),
+                         "the tree counter is tested with %s %s, which does not separate 'root' (== 0) from 'nested' (!= 0)" % (info["bin"]["op"], cv))
+                continue
+            eq_t, ne_t = (true_t, false_t) if zt else (false_t, true_t)
+            idx_checks.append((b, 0, eq_t, ne_t, other))
+    ctx.floor("C02.a", len(idx_checks), 2, "exact zero tests of the tree counter (postpone guard + root test)")
     # entry value read before any write of the counter
     counter_writes = []
     for b, i, st in R.iter_stmts():
@@ -327,6 +321,25 @@ def check(ctx):
     ctx.sample({"runner": R.path, "run_sites": [R.loc(b) for b in run_blocks], "postpone_sites": [R.loc(b) for b in postpone],
                 "abort_sites": [R.loc(b) for b in abort_own], "discard_abort_sites": [R.loc(b) for b in abort_foreign],
                 "runner_call_sites": n_sites + len(A.replay_closures(prog))})
+
+
+def zero_test(op, c, const_right):
+    """For unsigned x: does `x op c` (or `c op x`) hold exactly when x == 0 (True), exactly when x != 0 (False), or neither (None)"""
+    if not const_right:
+        op = {"Lt": "Gt", "Le": "Ge", "Gt": "Lt", "Ge": "Le"}.get(op, op)
+    if op == "Eq" and c == 0:
+        return True
+    if op == "Ne" and c == 0:
+        return False
+    if op == "Lt" and c == 1:
+        return True
+    if op == "Le" and c == 0:
+        return True
+    if op == "Gt" and c == 0:
+        return False
+    if op == "Ge" and c == 1:
+        return False
+    return None
 
 
 def backs_targets(R, h, backs):
